@@ -105,7 +105,7 @@ class OperandToken(CompositeBaseToken):
 
 
 class OneLeftOperandExpressionToken(RecursiveCompositeBaseToken):
-    _TOKEN_SETS = [[OperandToken, PercentOperatorToken, CLS], [OperandToken, PercentOperatorToken]]
+    _TOKEN_SETS = [[OperandToken, PercentOperatorToken]]
 
     @property
     def operator(self) -> PercentToken:
